@@ -514,10 +514,21 @@ impl Terminal for UnixTerminal {
             // process pending input
             if tty.is_readable() {
                 let mut buf = [0u8; 1024];
-                let recv = guard_io(self.tty.read(&mut buf), 0)?;
-                if recv == 0 {
-                    return Err(Error::Quit);
-                }
+                let recv = match self.tty.read(&mut buf) {
+                    // end of file, terminal has hung up
+                    Ok(0) => return Err(Error::Quit),
+                    Ok(recv) => recv,
+                    // spurious readiness or interrupted call, nothing to decode this time
+                    Err(error)
+                        if matches!(
+                            error.kind(),
+                            ErrorKind::Interrupted | ErrorKind::WouldBlock
+                        ) =>
+                    {
+                        0
+                    }
+                    Err(error) => return Err(error.into()),
+                };
                 self.stats.recv += recv;
                 tracing::trace!(
                     size = %recv,
